@@ -4,6 +4,7 @@ A history is a list of ops (tuples). `RealSession.run(op)` executes one op on a 
 real endpoints / session-manager API and returns a canonical outcome (JSON-able). Token values are replaced
 by indices in minting order (the model mints in the same order); everything random is thereby canonical.
 """
+import base64
 import copy
 import json
 import srv
@@ -179,6 +180,20 @@ class RealSession:
         req["client_secret"] = self.secret(client)
         return req
 
+    def _token_parse(self, client, body, ref=None):
+        """parse_request at the token endpoint with the credential of `client`, cycling through the ways a credential
+        can arrive: secret in the body; HTTP Basic with no client_id in the body; HTTP Basic while the body names the
+        client the presented token belongs to (the request is still the authenticated client's)"""
+        self._auth_n = getattr(self, "_auth_n", 0) + 1
+        style = self._auth_n % 3
+        if style == 0:
+            return self.ep["token"].parse_request(self._token_req(client, body))
+        req = dict(body)
+        if style == 2:
+            req["client_id"] = self._owner_client(ref, client) if ref is not None else client
+        cred = base64.b64encode(("%s:%s" % (client, self.secret(client))).encode()).decode()
+        return self.ep["token"].parse_request(req, http_info={"headers": {"authorization": "Basic " + cred}})
+
     def op_tparse(self, client, ref, redirect="same"):
         req = {"grant_type": "authorization_code", "code": self.tokval(ref)}
         if ref[0] == "tok":
@@ -187,7 +202,7 @@ class RealSession:
             req["redirect_uri"] = "https://%s.example.com/cb" % self._owner_client(ref, client)
         elif redirect == "other":
             req["redirect_uri"] = "https://evil.example.com/cb"
-        p = self.ep["token"].parse_request(self._token_req(client, req))
+        p = self._token_parse(client, req, ref)
         self.parsed.append(p)
         e = self.err_of(p)
         return ["err", e] if e else ["ok"]
@@ -201,7 +216,7 @@ class RealSession:
         req = {"grant_type": "refresh_token", "refresh_token": self.tokval(ref)}
         if scope is not None:
             req["scope"] = " ".join(scope)
-        p = self.ep["token"].parse_request(self._token_req(client, req))
+        p = self._token_parse(client, req, ref)
         self.parsed.append(p)
         e = self.err_of(p)
         return ["err", e] if e else ["ok"]
